@@ -149,6 +149,9 @@ var (
 	c31Ints    = []int{1, 2, 3, 1024}
 	c31Durs    = []time.Duration{time.Second, 2 * time.Second, 500 * time.Millisecond}
 	c31TagKeys = []string{"role", "dc", "k"}
+	// a tag may be set to the empty string: that is a value like any other (a
+	// later source that says k="" wins over an earlier k="x")
+	c31TagVals = []string{"x", "y", "z", "10.0.0.1:7946", "", ""}
 )
 
 // (shapes are ordered so that rapid shrinks towards nil / unset)
@@ -159,12 +162,12 @@ func c31GenTags(t *rapid.T) map[string]string {
 	case 1:
 		return map[string]string{}
 	case 2:
-		return map[string]string{rapid.SampledFrom(c31TagKeys).Draw(t, "tagkey"): rapid.SampledFrom(c31Strs).Draw(t, "tagval")}
+		return map[string]string{rapid.SampledFrom(c31TagKeys).Draw(t, "tagkey"): rapid.SampledFrom(c31TagVals).Draw(t, "tagval")}
 	default:
 		m := map[string]string{}
 		for _, k := range c31TagKeys {
 			if rapid.Bool().Draw(t, "hastag") {
-				m[k] = rapid.SampledFrom(c31Strs).Draw(t, "tagval")
+				m[k] = rapid.SampledFrom(c31TagVals).Draw(t, "tagval")
 			}
 		}
 		return m
